@@ -223,11 +223,15 @@ Proof.
 Qed.
 
 (* ---------------------------------------------------------------- next_row is local *)
-Lemma next_row_loop_len dbg be res h : forall fuel r inp added d out st' d',
-  next_row_loop fuel dbg be res h r inp added d = (out, st', d') ->
-  (length (st_inp st') <= length inp)%nat /\ (out = NRow -> (length (st_inp st') < length inp)%nat).
+Lemma sfx_nil inp : sfx [] inp.
+Proof. exists inp. now rewrite app_nil_r. Qed.
+
+Lemma next_row_loop_len dbg be res h : forall fuel r inp added q out st',
+  next_row_loop fuel dbg be res h r inp added q = (out, st') ->
+  (length (st_inp st') <= length inp)%nat /\
+  (out = NRow -> (length (st_inp st') < length inp)%nat /\ st_inseq st' = negb (r_end (st_row st'))).
 Proof.
-  induction fuel as [|f IH]; intros r inp added d out st' d' H; cbn [next_row_loop] in H.
+  induction fuel as [|f IH]; intros r inp added q out st' H; cbn [next_row_loop] in H.
   - inversion H; subst. cbn. split; [lia|discriminate].
   - destruct inp as [|b inp]; [inversion H; subst; cbn; split; [lia|discriminate]|].
     pose proof (parse_insn_good dbg be h (b :: inp)) as G.
@@ -237,50 +241,17 @@ Proof.
     destruct (execute dbg h r i) as [[r' x]| | |];
       try (inversion H; subst; cbn [st_inp]; split; [lia|discriminate]).
     destruct x.
-    + destruct (r_tomb r').
-      * apply IH in H as [H1 H2]. split; [lia|]. intros E. specialize (H2 E). lia.
-      * inversion H; subst; cbn [st_inp]; split; [lia|]. intros _. exact G.
-    + apply IH in H as [H1 H2]. split; [lia|]. intros E. specialize (H2 E). lia.
+    + destruct (r_tomb r' && negb (r_end r' && q)).
+      * apply IH in H as [H1 H2]. split; [lia|]. intros E. destruct (H2 E). split; [lia|assumption].
+      * inversion H; subst; cbn [st_inp st_inseq st_row]; split; [lia|]. intros _. split; [exact G|reflexivity].
+    + apply IH in H as [H1 H2]. split; [lia|]. intros E. destruct (H2 E). split; [lia|assumption].
     + inversion H; subst; cbn [st_inp]; split; [lia|discriminate].
 Qed.
 
-Lemma next_row_loop_local dbg be h : forall fuel res res' r a suf added added' d st' d',
-  next_row_loop fuel dbg be res h r (a ++ suf) added d = (NRow, st', d') ->
-  (length suf <= length (st_inp st'))%nat ->
-  exists x st'', st_inp st' = x ++ suf /\
-    next_row_loop fuel dbg be res' h r a added' d = (NRow, st'', d') /\
-    st_row st'' = st_row st' /\ st_inp st'' = x.
+Lemma next_row_loop_sfx dbg be res h : forall fuel r inp added q out st',
+  next_row_loop fuel dbg be res h r inp added q = (out, st') -> sfx (st_inp st') inp.
 Proof.
-  induction fuel as [|f IH]; intros res res' r a suf added added' d st' d' H Hl; cbn [next_row_loop] in H.
-  - discriminate.
-  - destruct a as [|b a].
-    { cbn [app] in H. exfalso.
-      assert (H' : next_row_loop (S f) dbg be res h r suf added d = (NRow, st', d')) by exact H.
-      apply next_row_loop_len in H' as [_ H']. specialize (H' eq_refl). lia. }
-    cbn [app] in H. cbn [next_row_loop].
-    destruct (parse_insn dbg be h (b :: a ++ suf)) as [[i rest]| | |] eqn:Ep; try discriminate.
-    assert (Lr : (length suf <= length rest)%nat).
-    { destruct (execute dbg h r i) as [[r' x]| | |]; try discriminate.
-      destruct x; [destruct (r_tomb r')|..]; try discriminate.
-      - apply next_row_loop_len in H as [H _]. lia.
-      - inversion H; subst. exact Hl.
-      - apply next_row_loop_len in H as [H _]. lia. }
-    destruct (parse_insn_local dbg be h (b :: a) suf i rest Ep Lr) as [x1 [-> Ep']].
-    rewrite Ep'.
-    destruct (execute dbg h r i) as [[r' x]| | |]; try discriminate.
-    destruct x; [destruct (r_tomb r') eqn:Et|..]; try discriminate.
-    + eapply IH; eauto.
-    + inversion H; subst. cbn [st_inp st_row] in *. eexists _, _. repeat split; reflexivity.
-    + eapply IH; eauto.
-Qed.
-
-Lemma sfx_nil inp : sfx [] inp.
-Proof. exists inp. now rewrite app_nil_r. Qed.
-
-Lemma next_row_loop_sfx dbg be res h : forall fuel r inp added d out st' d',
-  next_row_loop fuel dbg be res h r inp added d = (out, st', d') -> sfx (st_inp st') inp.
-Proof.
-  induction fuel as [|f IH]; intros r inp added d out st' d' H; cbn [next_row_loop] in H.
+  induction fuel as [|f IH]; intros r inp added q out st' H; cbn [next_row_loop] in H.
   - inversion H; subst. apply sfx_refl.
   - destruct inp as [|b inp]; [inversion H; subst; apply sfx_refl|].
     pose proof (parse_insn_good dbg be h (b :: inp)) as G.
@@ -289,7 +260,7 @@ Proof.
     destruct G as (G & _ & _). cbn [snd] in G.
     destruct (execute dbg h r i) as [[r' x]| | |]; try (inversion H; subst; cbn [st_inp]; exact G).
     destruct x.
-    + destruct (r_tomb r').
+    + destruct (r_tomb r' && negb (r_end r' && q)).
       * apply IH in H. eapply sfx_trans; eauto.
       * inversion H; subst; cbn [st_inp]; exact G.
     + apply IH in H. eapply sfx_trans; eauto.
@@ -297,18 +268,48 @@ Proof.
 Qed.
 
 (* fuel beyond the input length is irrelevant *)
-Lemma next_row_loop_fuel dbg be res h : forall f1 f2 r inp added d,
+Lemma next_row_loop_fuel dbg be res h : forall f1 f2 r inp added q,
   (length inp < f1)%nat -> (length inp < f2)%nat ->
-  next_row_loop f1 dbg be res h r inp added d = next_row_loop f2 dbg be res h r inp added d.
+  next_row_loop f1 dbg be res h r inp added q = next_row_loop f2 dbg be res h r inp added q.
 Proof.
-  induction f1 as [|f1 IH]; intros f2 r inp added d H1 H2; [lia|].
+  induction f1 as [|f1 IH]; intros f2 r inp added q H1 H2; [lia|].
   destruct f2 as [|f2]; [lia|]. cbn [next_row_loop].
   destruct inp as [|b inp]; [reflexivity|].
   pose proof (parse_insn_good dbg be h (b :: inp)) as G.
   destruct (parse_insn dbg be h (b :: inp)) as [[i rest]| | |]; cbn [good] in G; try reflexivity.
   destruct G as (_ & G & _). cbn [snd length] in *.
   destruct (execute dbg h r i) as [[r' x]| | |]; try reflexivity.
-  destruct x; [destruct (r_tomb r')|..]; try reflexivity; apply IH; lia.
+  destruct x; [destruct (r_tomb r' && negb (r_end r' && q))|..]; try reflexivity; apply IH; lia.
+Qed.
+
+Lemma next_row_loop_local dbg be h : forall fuel res res' r a suf added added' q st',
+  next_row_loop fuel dbg be res h r (a ++ suf) added q = (NRow, st') ->
+  (length suf <= length (st_inp st'))%nat ->
+  exists x st'', st_inp st' = x ++ suf /\
+    next_row_loop fuel dbg be res' h r a added' q = (NRow, st'') /\
+    st_row st'' = st_row st' /\ st_inp st'' = x /\ st_inseq st'' = st_inseq st'.
+Proof.
+  induction fuel as [|f IH]; intros res res' r a suf added added' q st' H Hl; cbn [next_row_loop] in H.
+  - discriminate.
+  - destruct a as [|b a].
+    { cbn [app] in H. exfalso.
+      assert (H' : next_row_loop (S f) dbg be res h r suf added q = (NRow, st')) by exact H.
+      apply next_row_loop_len in H' as [_ H']. destruct (H' eq_refl). lia. }
+    cbn [app] in H. cbn [next_row_loop].
+    destruct (parse_insn dbg be h (b :: a ++ suf)) as [[i rest]| | |] eqn:Ep; try discriminate.
+    assert (Lr : (length suf <= length rest)%nat).
+    { destruct (execute dbg h r i) as [[r' x]| | |]; try discriminate.
+      destruct x; [destruct (r_tomb r' && negb (r_end r' && q))|..]; try discriminate.
+      - apply next_row_loop_len in H as [H _]. lia.
+      - inversion H; subst. exact Hl.
+      - apply next_row_loop_len in H as [H _]. lia. }
+    destruct (parse_insn_local dbg be h (b :: a) suf i rest Ep Lr) as [x1 [-> Ep']].
+    rewrite Ep'.
+    destruct (execute dbg h r i) as [[r' x]| | |]; try discriminate.
+    destruct x; [destruct (r_tomb r' && negb (r_end r' && q)) eqn:Et|..]; try discriminate.
+    + eapply IH; eauto.
+    + inversion H; subst. cbn [st_inp st_row st_inseq] in *. eexists _, _. repeat split; reflexivity.
+    + eapply IH; eauto.
 Qed.
 
 (* successive next_row calls of the straight run that each return a row *)
@@ -317,47 +318,48 @@ Variables (dbg be : bool) (h : header).
 
 Inductive steps : lr_state -> list row -> lr_state -> Prop :=
 | steps_nil st : steps st [] st
-| steps_cons st st' d rs stk :
-    next_row dbg be false h st = (NRow, st', d) -> steps st' rs stk -> steps st (st_row st' :: rs) stk.
+| steps_cons st st' rs stk :
+    next_row dbg be false h st = (NRow, st') -> steps st' rs stk -> steps st (st_row st' :: rs) stk.
 
-Lemma steps_snoc st0 pre st st' d :
-  steps st0 pre st -> next_row dbg be false h st = (NRow, st', d) -> steps st0 (pre ++ [st_row st']) st'.
+Lemma steps_snoc st0 pre st st' :
+  steps st0 pre st -> next_row dbg be false h st = (NRow, st') -> steps st0 (pre ++ [st_row st']) st'.
 Proof.
-  induction 1 as [st|st st1 d1 rs stk N St IH]; intros Hn.
+  induction 1 as [st|st st1 rs stk N St IH]; intros Hn.
   - cbn [app]. econstructor; [exact Hn|constructor].
   - cbn [app]. econstructor; [exact N|]. apply IH. exact Hn.
 Qed.
 
 Lemma steps_sfx st rs stk : steps st rs stk -> sfx (st_inp stk) (st_inp st).
 Proof.
-  induction 1 as [st|st st1 d1 rs stk N St IH]; [apply sfx_refl|].
+  induction 1 as [st|st st1 rs stk N St IH]; [apply sfx_refl|].
   unfold next_row in N. apply next_row_loop_sfx in N. eapply sfx_trans; eauto.
 Qed.
 
-(* replaying a slice from a state with the same row: the same rows, then the end *)
+(* replaying a slice from a state with the same row and in_sequence flag: the same rows, then the end *)
 Lemma resume_sim : forall st rs stk, steps st rs stk ->
-  forall str fuel, row_reset h (st_row str) = row_reset h (st_row st) -> st_inp st = st_inp str ++ st_inp stk ->
+  forall str fuel, row_reset h (st_row str) = row_reset h (st_row st) -> st_inseq str = st_inseq st ->
+  st_inp st = st_inp str ++ st_inp stk ->
   (length (st_inp str) < fuel)%nat ->
-  exists l stf, rows_loop fuel dbg be true h str = (l, SEnd, stf) /\ map fst l = rs.
+  exists stf, rows_loop fuel dbg be true h str = (rs, SEnd, stf).
 Proof.
-  induction 1 as [st|st st1 d1 rs stk N St IH]; intros str fuel Hr Hi Hf.
+  induction 1 as [st|st st1 rs stk N St IH]; intros str fuel Hr Hq Hi Hf.
   - assert (E : st_inp str = []).
     { apply (f_equal (@length byte)) in Hi. rewrite app_length in Hi.
       destruct (st_inp str); [reflexivity|simpl in Hi; lia]. }
     destruct fuel as [|f]; [lia|]. cbn [rows_loop]. unfold next_row. rewrite E. cbn [length next_row_loop].
-    eexists _, _. split; reflexivity.
+    eexists. reflexivity.
   - destruct fuel as [|f]; [lia|]. cbn [rows_loop].
     unfold next_row in N. rewrite Hi in N.
     pose proof (steps_sfx _ _ _ St) as Sf. apply sfx_len in Sf.
-    destruct (next_row_loop_local dbg be h _ false true _ _ _ _ (st_added str) _ _ _ N Sf)
-      as (x & st2 & X1 & X2 & X3 & X4).
-    unfold next_row. rewrite Hr.
+    destruct (next_row_loop_local dbg be h _ false true _ _ _ _ (st_added str) _ _ N Sf)
+      as (x & st2 & X1 & X2 & X3 & X4 & X5).
+    unfold next_row. rewrite Hr, Hq.
     rewrite (next_row_loop_fuel dbg be true h (S (length (st_inp str))) (S (length (st_inp str ++ st_inp stk))))
       by (rewrite ?app_length; lia).
     rewrite X2.
-    pose proof X2 as X2'. apply next_row_loop_len in X2' as [_ X2']. specialize (X2' eq_refl).
-    destruct (IH st2 f ltac:(rewrite X3; reflexivity) ltac:(rewrite X1, X4; reflexivity) ltac:(lia)) as (l & stf & L1 & L2).
-    rewrite L1. eexists _, _. split; [reflexivity|]. cbn [map fst]. rewrite X3, L2. reflexivity.
+    pose proof X2 as X2'. apply next_row_loop_len in X2' as [_ X2']. destruct (X2' eq_refl) as [X2'' _].
+    destruct (IH st2 f ltac:(rewrite X3; reflexivity) X5 ltac:(rewrite X1, X4; reflexivity) ltac:(lia)) as (stf & L1).
+    rewrite L1. eexists. rewrite X3. reflexivity.
 Qed.
 End Steps.
 
@@ -376,42 +378,43 @@ Proof.
 Qed.
 
 Lemma seq_loop_rel dbg be h : forall fuel st0 pre st start files ss,
-  row_reset h (st_row st0) = row_new h ->
+  row_reset h (st_row st0) = row_new h -> st_inseq st0 = false ->
   steps dbg be h st0 pre st -> Forall (fun r => r_end r = false) pre ->
   start = match pre with [] => None | r :: _ => Some (r_addr r) end ->
   (length (st_inp st) < fuel)%nat ->
   seq_loop fuel dbg be h st (st_inp st0) start = Ok (files, ss) ->
   exists l stf tail,
     rows_loop fuel dbg be false h st = (l, SEnd, stf) /\
-    pre ++ map fst l = concat (map (fun s => fst (resume_rows dbg be h s)) ss) ++ tail /\
+    pre ++ l = concat (map (fun s => fst (resume_rows dbg be h s)) ss) ++ tail /\
     Forall (fun r => r_end r = false) tail /\ Forall (seq_good dbg be h) ss /\ files = st_added stf.
 Proof.
-  induction fuel as [|f IH]; intros st0 pre st start files ss Fr St Fp Hs Hf H; [lia|].
+  induction fuel as [|f IH]; intros st0 pre st start files ss Fr Fq St Fp Hs Hf H; [lia|].
   cbn [seq_loop] in H. cbn [rows_loop].
-  destruct (next_row dbg be false h st) as [[out st'] d] eqn:N.
+  destruct (next_row dbg be false h st) as [out st'] eqn:N.
   destruct out; try discriminate.
   - (* a row *)
-    pose proof N as N'. unfold next_row in N'. apply next_row_loop_len in N' as [_ N']. specialize (N' eq_refl).
-    pose proof (steps_snoc _ _ _ _ _ _ _ _ St N) as St'.
+    pose proof N as N'. unfold next_row in N'. apply next_row_loop_len in N' as [_ N'].
+    destruct (N' eq_refl) as [N1 N2].
+    pose proof (steps_snoc _ _ _ _ _ _ _ St N) as St'.
     destruct (r_end (st_row st')) eqn:Ee.
     + destruct (seq_loop f dbg be h st' (st_inp st') None) as [[fs ss']| | |] eqn:E; cbn [bind] in H; try discriminate.
       inversion H; subst files ss; clear H.
       assert (Fr' : row_reset h (st_row st') = row_new h) by (unfold row_reset; rewrite Ee; reflexivity).
-      destruct (IH st' [] st' None fs ss' Fr' (steps_nil _ _ _ _) (Forall_nil _) eq_refl ltac:(lia) E)
+      assert (Fq' : st_inseq st' = false) by (rewrite N2; try rewrite Ee; reflexivity).
+      destruct (IH st' [] st' None fs ss' Fr' Fq' (steps_nil _ _ _ _) (Forall_nil _) eq_refl ltac:(lia) E)
         as (l & stf & tail & L1 & L2 & L3 & L4 & L5).
-      rewrite L1. exists ((st_row st', d) :: l), stf, tail.
-      (* the sequence just finished *)
+      rewrite L1. exists (st_row st' :: l), stf, tail.
       pose proof (steps_sfx _ _ _ _ _ _ St') as [a Ea].
       assert (G : resume_rows dbg be h
                     (mk_seq (match start with Some a0 => a0 | None => 0 end) (r_addr (st_row st'))
                             (remove_trailing (st_inp st0) (st_inp st'))) = (pre ++ [st_row st'], SEnd)).
       { rewrite Ea, remove_trailing_app. unfold resume_rows. cbn [sq_insns].
-        destruct (resume_sim dbg be h _ _ _ St' (mk_st (row_new h) a []) (S (length a)))
-          as (l0 & stf0 & R1 & R2).
-        - cbn [st_row]. rewrite Fr. reflexivity.
+        destruct (resume_sim dbg be h _ _ _ St' (st_init h a) (S (length a))) as (stf0 & R1).
+        - cbn [st_row st_init]. rewrite Fr. reflexivity.
+        - cbn [st_inseq st_init]. symmetry. exact Fq.
         - exact Ea.
         - cbn. lia.
-        - rewrite R1, R2. reflexivity. }
+        - rewrite R1. reflexivity. }
       split; [reflexivity|]. split; [|split; [exact L3|split; [|exact L5]]].
       * cbn [map concat fst]. rewrite G. cbn [fst]. rewrite <- !app_assoc. cbn [app] in L2 |- *.
         rewrite <- L2. reflexivity.
@@ -422,13 +425,13 @@ Proof.
       { apply Forall_app. split; [exact Fp|]. constructor; [exact Ee|constructor]. }
       destruct (IH st0 (pre ++ [st_row st']) st'
                   (match start with None => Some (r_addr (st_row st')) | Some a => Some a end)
-                  files ss Fr St' Fp' ltac:(subst start; destruct pre; reflexivity) ltac:(lia) H)
+                  files ss Fr Fq St' Fp' ltac:(subst start; destruct pre; reflexivity) ltac:(lia) H)
         as (l & stf & tail & L1 & L2 & L3 & L4 & L5).
-      rewrite L1. exists ((st_row st', d) :: l), stf, tail. split; [reflexivity|].
+      rewrite L1. exists (st_row st' :: l), stf, tail. split; [reflexivity|].
       split; [|split; [exact L3|split; [exact L4|exact L5]]].
-      cbn [map fst]. rewrite <- L2, <- app_assoc. reflexivity.
+      rewrite <- L2, <- app_assoc. reflexivity.
   - (* end of the program *)
-    inversion H; subst. exists [], st', pre. cbn [map]. rewrite app_nil_r. repeat split; auto.
+    inversion H; subst. exists [], st', pre. rewrite app_nil_r. repeat split; auto.
 Qed.
 
 Lemma sequences_eq_rows_lemma dbg be h files ss :
@@ -438,13 +441,13 @@ Lemma sequences_eq_rows_lemma dbg be h files ss :
     snd (rows_model dbg be h) = SEnd /\
     Forall (fun r => r_end r = false) tail /\
     Forall (seq_good dbg be h) ss /\
-    files = st_added (snd (rows_ghost dbg be h)).
+    files = st_added (snd (rows_full dbg be h)).
 Proof.
   intros H. unfold sequences in H.
-  destruct (seq_loop_rel dbg be h (S (length (h_program h))) (mk_st (row_new h) (h_program h) []) []
-              (mk_st (row_new h) (h_program h) []) None files ss eq_refl (steps_nil _ _ _ _) (Forall_nil _)
+  destruct (seq_loop_rel dbg be h (S (length (h_program h))) (st_init h (h_program h)) []
+              (st_init h (h_program h)) None files ss eq_refl eq_refl (steps_nil _ _ _ _) (Forall_nil _)
               eq_refl ltac:(cbn; lia) H) as (l & stf & tail & L1 & L2 & L3 & L4 & L5).
-  exists tail. unfold rows_model, rows_ghost. rewrite L1. cbn [fst snd]. cbn [app] in L2.
+  exists tail. unfold rows_model, rows_full. rewrite L1. cbn [fst snd]. cbn [app] in L2.
   repeat split; auto.
 Qed.
 
@@ -455,3 +458,34 @@ Lemma sample_sequences : forall dbg,
   | _ => False
   end.
 Proof. intros [|]; vm_compute; split; reflexivity. Qed.
+
+(* ---------------------------------------------------------------- bounds are ordered *)
+Lemma chain_body_last h : forall body a e,
+  chain h a (body ++ [e]) -> Forall (fun r => r_end r = false) body ->
+  a <= r_addr e /\ r_addr e <= amask h /\ match body with [] => True | r :: _ => r_addr r <= r_addr e end.
+Proof.
+  induction body as [|r body IH]; intros a e C F.
+  - cbn [app chain] in C. destruct C as (C1 & C2 & _). repeat split; assumption.
+  - cbn [app chain] in C. destruct C as (C1 & C2 & C3). inversion F as [|? ? Fr Fb]; subst.
+    rewrite Fr in C3. destruct (IH _ _ C3 Fb) as (J1 & J2 & _). repeat split; [lia|exact J2|exact J1].
+Qed.
+
+Lemma sequence_bounds_ordered_lemma dbg be h files ss : hdr_ok h ->
+  sequences dbg be h = Ok (files, ss) ->
+  Forall (fun s => sq_start s <= sq_end s /\ sq_end s <= amask h /\
+                   rows_monotone (fst (resume_rows dbg be h s))) ss.
+Proof.
+  intros Hh H. destruct (sequences_eq_rows_lemma dbg be h files ss H) as (tail & _ & _ & _ & G & _).
+  eapply Forall_impl; [|exact G]. intros s [Gs (body & e & Er & Fb & Ee & Eend & Estart)].
+  unfold resume_rows in *.
+  destruct (rows_loop (S (length (sq_insns s))) dbg be true h (st_init h (sq_insns s))) as [[rs st] stf] eqn:R.
+  cbn [fst snd] in *.
+  destruct (rows_loop_post dbg be true h Hh (S (length (sq_insns s))) (st_init h (sq_insns s)) _ _ _
+              (st_init_ok h _) ltac:(cbn; lia) R) as (_ & _ & C & _).
+  change (floor_of (st_init h (sq_insns s))) with 0 in C.
+  split; [|split].
+  - subst rs. destruct (chain_body_last h body 0 e C Fb) as (_ & _ & J). rewrite Estart, Eend.
+    destruct body; [lia|exact J].
+  - subst rs. destruct (chain_body_last h body 0 e C Fb) as (_ & J & _). rewrite Eend. exact J.
+  - eapply chain_monotone; eauto.
+Qed.
